@@ -423,6 +423,21 @@ fn server_case(case: &mut Case) -> CaseResult {
             }
         }
     }
+    // `check` accepts types without any field / value / member (it does not implement those rules): one schema in six has
+    // such definitions, each followed by a sibling of the same kind without a description
+    if case.ch.chance(1, 6) {
+        case.label("empty-type-definitions");
+        for (kind, a, b) in [(Kind::Input, "EmptyInput", "AfterEmptyInput"), (Kind::Enum, "EmptyEnum", "AfterEmptyEnum"), (Kind::Interface, "EmptyInterface", "AfterEmptyInterface")] {
+            doc.push(MTsDef::Type(MTypeDef::new(kind, a)));
+            let mut t = MTypeDef::new(kind, b);
+            match kind {
+                Kind::Input => t.input_fields.push(MInputValue { desc: None, name: "x".into(), ty: MType::named("Int"), default: None, directives: vec![] }),
+                Kind::Enum => t.values.push(MEnumValue { desc: None, name: "X".into(), directives: vec![] }),
+                _ => t.fields.push(MField { desc: None, name: "x".into(), args: vec![], ty: MType::named("Int"), directives: vec![] }),
+            }
+            doc.push(MTsDef::Type(t));
+        }
+    }
     let files = split_into_extensions(&mut case.ch, &doc);
     let has_ext = files.iter().flatten().any(|d| matches!(d, MTsDef::TypeExt(_) | MTsDef::SchemaExt(_)));
     let rendered: Vec<(std::path::PathBuf, String)> = files
